@@ -197,4 +197,57 @@ theorem rhoM_up_apply (hlet : ∀ w ∈ rels, ∀ x ∈ w, x ∈ allGensOf n) {t
 
 end
 
+/-- transfer of C13's statement about the stabiliser of row 0 from C11's presentation to any
+    group `A` isomorphic to C09's presentation (in the application: the textbook orbifold group,
+    via C09 `presIso`), acting on the rows through `rhoM` -/
+theorem transfer_stabiliser {n : Nat} {rels : List (List Int)}
+    (hlet : ∀ w ∈ rels, ∀ x ∈ w, x ∈ allGensOf n) {tab : Tab} (hv : Valid tab n rels [])
+    {A : Type} [Group A] (iso : A ≃* PresentedGroup (MRel n rels))
+    {P : Type} [Group P] (f : P →* PresentedGroup (relSet n rels)) (hinj : Function.Injective f)
+    (hrange : f.range = (MulAction.stabilizer (Equiv.Perm (Fin tab.size)) (⟨0, hv.pos⟩ : Fin tab.size)).comap
+      (actionHom hv))
+    (hidx : ((MulAction.stabilizer (Equiv.Perm (Fin tab.size)) (⟨0, hv.pos⟩ : Fin tab.size)).comap
+      (actionHom hv)).index = tab.size) :
+    ((MulAction.stabilizer (Equiv.Perm (Fin tab.size)) (⟨0, hv.pos⟩ : Fin tab.size)).comap
+      ((rhoM hv).comp iso.toMonoidHom)).index = tab.size ∧
+    ∃ fT : P →* A, Function.Injective fT ∧
+      fT.range = (MulAction.stabilizer (Equiv.Perm (Fin tab.size)) (⟨0, hv.pos⟩ : Fin tab.size)).comap
+        ((rhoM hv).comp iso.toMonoidHom) := by
+  have hK : (MulAction.stabilizer (Equiv.Perm (Fin tab.size)) (⟨0, hv.pos⟩ : Fin tab.size)).comap
+        ((rhoM hv).comp iso.toMonoidHom) =
+      ((MulAction.stabilizer (Equiv.Perm (Fin tab.size)) (⟨0, hv.pos⟩ : Fin tab.size)).comap
+        (actionHom hv)).comap ((downHom n rels).comp iso.toMonoidHom) := by
+    ext x
+    simp only [Subgroup.mem_comap, MonoidHom.comp_apply]
+    rw [← rhoM_up_apply hlet hv (downHom n rels (iso.toMonoidHom x)), up_down_apply hlet]
+  constructor
+  · rw [hK, Subgroup.index_comap_of_surjective]
+    · exact hidx
+    · intro y
+      refine ⟨iso.symm (upHom hlet y), ?_⟩
+      show downHom n rels (iso (iso.symm (upHom hlet y))) = y
+      rw [MulEquiv.apply_symm_apply, down_up_apply hlet]
+  · refine ⟨iso.symm.toMonoidHom.comp ((upHom hlet).comp f), ?_, ?_⟩
+    · intro a b hab
+      apply hinj
+      have h1 : upHom hlet (f a) = upHom hlet (f b) := iso.symm.injective hab
+      have := congrArg (downHom n rels) h1
+      rwa [down_up_apply hlet, down_up_apply hlet] at this
+    · ext x
+      rw [hK]
+      simp only [MonoidHom.mem_range, Subgroup.mem_comap, MonoidHom.comp_apply]
+      constructor
+      · rintro ⟨y, rfl⟩
+        show actionHom hv (downHom n rels (iso (iso.symm (upHom hlet (f y))))) ∈ _
+        rw [MulEquiv.apply_symm_apply, down_up_apply hlet]
+        have : f y ∈ f.range := ⟨y, rfl⟩
+        rw [hrange] at this
+        exact this
+      · intro hx
+        have : downHom n rels (iso x) ∈ f.range := by rw [hrange]; exact hx
+        obtain ⟨y, hy⟩ := this
+        refine ⟨y, ?_⟩
+        show iso.symm (upHom hlet (f y)) = x
+        rw [hy, up_down_apply hlet, MulEquiv.symm_apply_apply]
+
 end DSymVerif.D3
